@@ -377,25 +377,29 @@ func (e *c19Env) fsOp(op c19Op, nrepos int) (ok bool, err error) {
 		_, wasLoaded := e.loaded[path]
 		kind := "create"
 		if old != nil {
-			kind = "replace"
+			kind = "replace-not-loaded"
 			if wasLoaded {
 				e.pending[path] = true
 				kind = "replace-loaded"
 			}
 			if nf.meta != nil {
-				kind += "+kept-sidecar"
+				e.label("write:sidecar-kept")
+			} else if old.meta != nil {
+				e.label("write:sidecar-dropped")
 			}
 		}
 		switch {
 		case op.F > c19MaxReadable:
-			kind += "/unreadable-format"
+			e.label("write:format-unreadable")
 		case op.F < index.IndexFormatVersion:
-			kind += "/older-format"
+			e.label("write:format-older")
 		case op.F > index.IndexFormatVersion:
-			kind += "/next-format"
+			e.label("write:format-next")
+		default:
+			e.label("write:format-current")
 		}
 		if op.Old {
-			kind += "/older-mtime"
+			e.label("write:older-mtime")
 		}
 		e.label("write:" + kind)
 		return true, nil
